@@ -1133,6 +1133,54 @@ def gen_BinImageGeo() -> None:
 
     part("genInsertBefore", "Int → Int → Bool", b_insert)
 
+    # ------------------------------------------------------------------ size setter / constructor: how `_size` is stored
+    def size_store(fn, value_param, what):
+        """the integer stored into `self._size` by `fn` (only that assignment is read; parameters are free variables)"""
+        selfn = fn.args.args[0].arg
+        names = [a.arg for a in fn.args.args[1:]] + [a.arg for a in fn.args.kwonlyargs]
+        if value_param not in names:
+            raise Untr(f"{what}: parameter {value_param} not found")
+        sobj = ObjV("self", {"alignment": IntV(V("alignment"))})
+        env = {selfn: sobj, value_param: IntV(V("value"))}
+        if "alignment" in names:
+            env["alignment"] = IntV(V("alignment"))
+        hits = []
+        for st in fn.body:
+            if is_doc(st) or is_log(st):
+                continue
+            if isinstance(st, ast.Assign) and len(st.targets) == 1 and isinstance(st.targets[0], ast.Attribute) \
+                    and isinstance(st.targets[0].value, ast.Name) and st.targets[0].value.id == selfn:
+                if st.targets[0].attr == "_size":
+                    hits.append(sym.int_of(sym.ev(st.value, env)))
+                elif st.targets[0].attr == "alignment":
+                    v = sym.ev(st.value, env)
+                    sobj.attrs["alignment"] = v
+                continue
+            if isinstance(st, ast.Assign) and len(st.targets) == 1 and isinstance(st.targets[0], ast.Name) and st.targets[0].id in (value_param, "alignment"):
+                raise Untr(f"{what}: parameter rebound before `_size` is stored")
+        if len(hits) != 1:
+            raise Untr(f"{what}: `self._size` is not assigned exactly once")
+        check_vars(hits[0], ["value", "alignment"])
+        return hits[0]
+
+    def b_setsize():
+        setters = [n for n in cls_node.body if isinstance(n, ast.FunctionDef) and n.name == "size" and "setter" in Sym.decorators(n)]
+        if len(setters) != 1:
+            raise Untr("size setter not found")
+        fn = setters[0]
+        t = size_store(fn, fn.args.args[1].arg, "size setter")
+        return ("/-- `BinaryImage.size = value` (the property setter): what is stored as the explicit size -/\ndef genSetSize (value alignment : Int) : PyRes Int :=\n  "
+                + lean_res_ordered(t))
+
+    part("genSetSize", "Int → Int → PyRes Int", b_setsize)
+
+    def b_ctorsize():
+        t = size_store(sym.method("__init__"), "size", "constructor")
+        return ("/-- `BinaryImage(size=value, alignment=alignment)`: what the constructor stores as the explicit size -/\ndef genCtorSize (value alignment : Int) : PyRes Int :=\n  "
+                + lean_res_ordered(t))
+
+    part("genCtorSize", "Int → Int → PyRes Int", b_ctorsize)
+
     # ------------------------------------------------------------------ append_image
     def b_append():
         fn = sym.method("append_image")
